@@ -2,6 +2,7 @@ package main
 
 import (
 	"bytes"
+	"hash/fnv"
 	"context"
 	"fmt"
 	"os"
@@ -43,7 +44,17 @@ type solveResult struct {
 	output string
 }
 
+// procSem bounds the number of solver processes running at any time, so that
+// wall-clock limits measure solver time and not scheduling delay.
+var procSem = make(chan struct{}, 14)
+
 func runSolver(ctx context.Context, s solverSpec, file string, timeoutS int, seed int) solveResult {
+	select {
+	case procSem <- struct{}{}:
+		defer func() { <-procSem }()
+	case <-ctx.Done():
+		return solveResult{status: "cancelled", solver: s.name}
+	}
 	args := s.args(timeoutS, file, seed)
 	cctx, cancel := context.WithTimeout(ctx, time.Duration(timeoutS+2)*time.Second)
 	defer cancel()
@@ -108,10 +119,7 @@ func lightScript(script string) (string, bool) {
 }
 
 func discharge(script string, dir string, name string, timeoutS int, seed int, stage1Only bool) solveResult {
-	file := filepath.Join(dir, sanitize(name)+".smt2")
-	if len(file) > 200 {
-		file = file[:200] + ".smt2"
-	}
+	file := filepath.Join(dir, shortName(name, 90)+".smt2")
 	if err := os.WriteFile(file, []byte(script), 0o644); err != nil {
 		return solveResult{status: "error", output: err.Error()}
 	}
@@ -168,4 +176,15 @@ func discharge(script string, dir string, name string, timeoutS int, seed int, s
 		}
 	}
 	return best
+}
+
+// shortName gives a file-system friendly name of bounded length (with a hash suffix when cut).
+func shortName(name string, max int) string {
+	s := sanitize(name)
+	if len(s) <= max {
+		return s
+	}
+	h := fnv.New32a()
+	h.Write([]byte(name))
+	return fmt.Sprintf("%s_%08x", s[:max], h.Sum32())
 }
